@@ -544,7 +544,7 @@ def run(rep, tier):
     rep.outside = ["real _molli_run processes, threads, the real cache directory in the symbolic runs (world model; every counterexample is replayed with real processes, files, msgpack and sha3)",
                    "jobmap_sge, worker, Job.__call__", "whether an item whose run left out a return file (command exit 0) is executed again by a later run (not fixed by the property; history is cut there)",
                    "strict_hash=False with differing hashes (explicit opt-out of the hash check)", "more than 2 items, more than 2 conformers, more than 3 runs"]
-    rep.assumptions = ["_run_local = contract of runner.run_local (C17): output file carries the input's hash, last return code and existing requested files; nothing is written when the runner is killed",
+    rep.assumptions = ["_run_local = contract of runner.run_local (established by C17's h_run obligations, a subset of which is discharged again in this check): output file carries the input's hash, last return code and existing requested files; nothing is written when the runner is killed",
                        "JobInput.hash modelled as the tuple of its content (validated: separates the same inputs as sha3/msgpack)", "ThreadPoolExecutor runs inline; logging / tqdm do nothing",
                        "Collections are the real Collection/UkvCollectionBackend/UKVFile on the C02 file model"]
     env = {} if q else {"XH_THOROUGH": "1"}
@@ -555,3 +555,8 @@ def run(rep, tier):
     specs.sort(key=lambda sp: sp["fn"] != "h_vec")            # long ones first
     specs += [{"fn": "h_hash_fields", "timeout": 600, "split": f} for f in range(6)]
     xh.run_obligations(rep, "harness.C18", specs)
+    # assume / guarantee: the scripted runner above is the contract of runner.run_local.  That contract is what makes an output with exit code 0 mean
+    # "every command succeeded", so the obligations that establish it for 2- and 3-command jobs (C17's h_run on its process / filesystem model)
+    # are discharged here as well: a change of run_local that breaks the contract breaks C18 through jobmap's cache and finalisation tests.
+    cspecs = [{"fn": "h_run", "timeout": 900 if q else 3000, "split": 8 * n + r, "env": {"XH_QUICK": "1"} if q else {}, "tag": "/run_local-contract"} for n in (2, 3) for r in range(min(8, 2 ** n)) if q is False or r in (1, 2, 5)]
+    xh.run_obligations(rep, "harness.C17", cspecs)
